@@ -69,7 +69,7 @@ PROPS = {
         "text": "library codecs: dec(enc v) = v under explicit domain predicates (proved); codecs compared through hooks",
     },
     "C01": {
-        "lean": ["PnaVerif.Props.Consts", "PnaVerif.Props.C01", "PnaVerif.Props.C07Solid"],
+        "lean": ["PnaVerif.Props.Consts", "PnaVerif.Props.C01", "PnaVerif.Props.C07Solid", "PnaVerif.Props.C01Archive"],
         "families": ["cipher-sm", "roundtrip", "foreign"],
         "trusted": COMMON_TRUST + CRYPTO_TRUST,
         "text": "writer partition independence, reader schedule independence and pipeline round trip proved for every lawful cipher/codec; state machines tied by cipher-sm, end to end by roundtrip",
